@@ -502,7 +502,9 @@ R.mutant("r2-question-mark-safe-in-database", URLPY,
          sub('quote(self.database, safe=" +/")', 'quote(self.database, safe=" +/?")'), "C20-R2")
 R.mutant("r3-eq-forgets-port", URLPY, sub("            and self.port == other.port\n", ""), "C20-R3")
 R.mutant("r3-copy-swaps-host-database", URLPY,
-         sub("            self.host,\n            self.port,\n            self.database,\n", "            self.database,\n            self.port,\n            self.host,\n"), "C20-R3")
+         sub("            self.host,\n            self.port,\n            self.database,\n            # note this is",
+             "            self.database,\n            self.port,\n            self.host,\n            # note this is"), "C20-R3")
+R.mutant("r3-hash-includes-object-id", URLPY, sub("        return hash(str(self))\n", "        return hash((str(self), id(self)))\n"), "C20-R3")
 R.mutant("r4-no-brackets", URLPY, sub('                s += f"[{self.host}]"\n', "                s += self.host\n"), "C20-R4")
 R.mutant("r4-bare-host-admits-colon", URLPY, sub(r"(?P<ipv4host>[^/:\?]+)", r"(?P<ipv4host>[^/\?]+)"), "C20-R4")
 R.mutant("r4-port-not-int", URLPY, sub('            components["port"] = int(components["port"])\n', '            components["port"] = components["port"]\n'), "C20-R4")
